@@ -359,3 +359,20 @@ package native
 //@ call removeDepositFor requires[unlocked] deposit != nil && interop.height(ic) >= deposit.Till
 //@ call CallFromNative requires[payout] ncalls(removeDepositFor) == 1 && arg2 == cs && arg5
 //@ call CallFromNative requires[amount] len(arg4) == 4 && is(arg4[2], *stackitem.BigInteger) && (*big.Int)(arg4[2].(*stackitem.BigInteger)) == deposit.Amount
+
+// (C05) Notary deposit (onNEP17Payment): what is credited is the amount of the payment, added to the
+// deposit of the account named in the data (the payer by default), and that same record is what is
+// stored - under that account; lockDepositUntil stores the record it read, for the witnessed account.
+//@ func (*Notary).onPayment
+//@ may-panic
+//@ opt frame off
+//@ opt callbacks pure
+//@ requires[typeinv] ic != nil && ic.VM != nil && ic.Tx != nil   // a payment callback runs inside a transaction
+//@ call (*Int).Add requires[sum] arg0 == deposit.Amount && arg1 == deposit.Amount && arg2 == amount
+//@ call putDepositFor requires[owner] arg2 == deposit && arg3 == to && ncalls("(*Int).Add") == 1 && deposit.Till == till
+//@ func (*Notary).lockDepositUntil
+//@ may-panic
+//@ opt frame off
+//@ opt callbacks pure
+//@ requires[typeinv] ic != nil && ic.VM != nil && runtime.wfSigners(ic)
+//@ call putDepositFor requires[owner] arg2 == deposit && arg3 == addr && deposit.Till == till
